@@ -310,7 +310,8 @@ class UnitRunner:
             # old() snapshots
             old_cache = {}
             import ast as _ast
-            for e in list(c["ensures"]) + list(c["ensures_raise"]):
+            guard_exprs = [g for gs in c["on_effect"].values() for g in gs]
+            for e in list(c["ensures"]) + list(c["ensures_raise"]) + guard_exprs:
                 if isinstance(e, str):
                     for n in _ast.walk(_ast.parse(e.strip(), mode="eval")):
                         if isinstance(n, _ast.Call) and isinstance(n.func, _ast.Name) and n.func.id == "old":
